@@ -231,10 +231,8 @@ impl SendingData {
                                 radio,
                                 ms,
                             ),
-                            // anything other than TxComplete is unexpected
-                            _ => {
-                                panic!("SendingData: Unexpected radio response");
-                            }
+                            // anything other than TxComplete is unexpected: keep waiting for it
+                            _ => (State::SendingData(self), Err(Error::UnexpectedRadioResponse.into())),
                         }
                     }
                     Err(e) => (State::SendingData(self), Err(super::Error::Radio(e))),
